@@ -2,7 +2,7 @@
    The model (Lib/Stringify.v) is tied to refurb.checks.common.stringify by the
    correspondence check on every run. *)
 From Lib Require Import Base PyAst Equiv Stringify.
-From P Require Import C02Escapes.
+From Lib Require Import StrEscapes.
 Open Scope list_scope.
 
 (* escapes: for every string (any code points) the quoted literal reads back as that
